@@ -67,15 +67,15 @@ func (f *vfFixture) inject(peerAddr string, peerPort int, raw []byte) error {
 // vfSinks owns loopback UDP sockets and TCP listeners and files every message
 // that arrives under the value of its X-Vf-Probe header.
 type vfSinks struct {
-	mu    sync.Mutex
-	got   map[string][]string // probe id -> addresses (ip:port) that received it, in arrival order
-	udp   []*net.UDPConn
-	udpAt map[string]*net.UDPConn
-	lastRaw map[string][]byte
+	mu       sync.Mutex
+	got      map[string][]string // probe id -> addresses (ip:port) that received it, in arrival order
+	udp      []*net.UDPConn
+	udpAt    map[string]*net.UDPConn
+	lastRaw  map[string][]byte
 	tcpAt    map[string]net.Listener
 	tcpConns map[string][]net.Conn
-	tcp   []net.Listener
-	addrs []string
+	tcp      []net.Listener
+	addrs    []string
 }
 
 func newVfSinks() *vfSinks { return &vfSinks{got: map[string][]string{}} }
